@@ -51,7 +51,10 @@ const tieRule = "every discovered Get/Update/Pull triple, Get/Pull pair and keye
 	"Get with nested read masks followed by a full Get; Pull with read mask and updates_only, at most 2 open; cancel; odd sessions cap repeated message fields of payloads at one element), " +
 	"mask sessions (every single-path read mask of the resource's descriptor below 3 levels, up to the step budget, plus two-path masks, through Get and as Pull seeds), " +
 	"keyed sessions (Create/Update/Get/Pull/Delete over up to 3 ids plus ids that do not exist), update-while-subscribing sessions (gap: deterministic through the " +
-	"beforeListen yield point; race: by timing), tween sessions (servers with a Tween field): the observation trace is fed to the Lean register-server model run as an acceptor " +
+	"beforeListen yield point; race: by timing), two-writer sessions (duel, and every third keyed session: two Updates of one register from two clients, the earlier one held at the " +
+	"value.set.beforeSend / coll.update.beforeSend yield point between storing and announcing its value while the later one runs to completion; 1-2 open streams), " +
+	"first-use sessions (rows +factory: routers built with the generated WithXxxApiClientFactory; every register session starts with the first request for the name parked inside its " +
+	"factory call while other first requests complete), a keyed row whose model starts with records and an armed collector (hailpb +collector: generated timestamps are all older than the keep-alive), tween sessions (servers with a Tween field): the observation trace is fed to the Lean register-server model run as an acceptor " +
 	"(driverC14) and its verdict per observation is compared with the independent Go monitor's; composite sessions (registers composed of collection items, discovered by shape and a probe): " +
 	"the Lean composed-register model runs as a SIMULATOR and its predicted response listing and per-stream message bursts are compared with what the stack delivered; " +
 	"non-trivial = a session with more than 6 observations; distinct = distinct (row, triple, kind, session)"
@@ -59,6 +62,9 @@ const tieRule = "every discovered Get/Update/Pull triple, Get/Pull pair and keye
 const monRule = "the five statements of the property evaluated directly on the observations with proto.Equal and an own projection: Update response = next unmasked Get; " +
 	"masked Get = projection, and a read never changes what the next full Get returns; Pull seed = current value unless updates_only; every value-changing successful Update appears on every open stream with the " +
 	"response's (projected) value and the request's name, nothing else appears; a rejected Update leaves Get unchanged and emits nothing; panics are violations. " +
+	"Two overlapping writers: both answered, the register is the later store, each value appears on every open stream (the later store's event first, compared with what the stream showed before both; " +
+	"then the overtaken one's), and - the recorded finding .../two-writers/stream-left-on-overtaken-value - every established stream ends on the register's value. " +
+	"First use through a factory router: the overtaken first request is judged as served after the requests that overtook it, on the same register. " +
 	"Stream verdicts of a session that made a multi-item write (two or more items in the payload or changed in the response) while a stream was open carry /after-multi-item-write. " +
 	"Composite sessions: an own fold over a plain map predicts the response (only the written items change) and, per stream, the exact burst (one composition per item write, equal neighbours suppressed; " +
 	"updates-only streams compose from the whole collection)"
@@ -79,6 +85,7 @@ type sessionFn func(t triple, sid sessionID, mon *lib.Monitor) (lines, verdicts 
 
 var sessionKinds = map[string]sessionFn{
 	"triple": runSession, "tween": runTweenSession, "race": runRaceSession, "gap": runGapSession, "keyed": runKeyedSession, "masks": runMaskSession, "composite": runCompositeSession,
+	"duel": runDuelSession,
 }
 
 // runConfirmed runs one session against a scratch monitor. Every verdict of the stack involves time somewhere
@@ -184,6 +191,11 @@ func runChildSide(f lib.Flags, res *lib.Result, key string) {
 		for q := 0; q < sessionsOf(f); q++ {
 			exec(t, sessionID{Kind: "triple", Triple: t.key(), Seed: f.Seed, Seq: q, Steps: stepsOf(q)})
 		}
+		if gatedRows[t.Row.rowKey()] != nil {
+			// a router creating its clients on first use: the register sessions above each start with the forced
+			// first-use overlap; everything else about these servers is driven on their plain rows
+			continue
+		}
 		// every read-mask path of the resource's descriptor (exhaustive below 3 levels up to the step budget)
 		for q := 0; q < f.N(2, 8); q++ {
 			exec(t, sessionID{Kind: "masks", Triple: t.key(), Seed: f.Seed, Seq: q, Steps: f.N(60, 400)})
@@ -202,6 +214,13 @@ func runChildSide(f lib.Flags, res *lib.Result, key string) {
 			}
 			for q := 0; q < f.N(1, 20); q++ {
 				exec(t, sessionID{Kind: "race", Triple: t.key(), Seed: f.Seed, Seq: q, Steps: f.N(10, 25)})
+			}
+		}
+		// two writers on one register, the earlier one held between storing and announcing its value (composed
+		// registers excepted: one of their Updates is several writes)
+		if t.update != nil && compositeShape(t) == nil {
+			for q := 0; q < f.N(4, 40); q++ {
+				exec(t, sessionID{Kind: "duel", Triple: t.key(), Seed: f.Seed, Seq: q, Steps: 2 + q%3})
 			}
 		}
 		// servers whose Update can start background writes (a Tween field in the resource): tween scenarios
